@@ -94,6 +94,8 @@ def run(prog: Program, res: Result, tier: str) -> None:
     mod = prog.module(MOD)
     n_pairs = 0
     for fn in [n for n in mod.tree.body if isinstance(n, ast.FunctionDef)]:
+        if prog.inlined_away(f"{MOD}:{fn.name}"):
+            continue        # a new helper, analysed inside its callers
         MATS = matrix_locals(fn) | set(MATRICES)
         stores = []
         for node in ast.walk(fn):
@@ -180,29 +182,92 @@ def run(prog: Program, res: Result, tier: str) -> None:
     top = prog.fn(f"{MOD}:connectivity2bond_orders")
     t = utext(top.node)
     inst = "connectivity2bond_orders: integer copy of the input, result of _AC2BO returned"
-    if "con_mat = np.array(connectivity_matrix, dtype=int)" in t and \
-            re.search(r"BO_matrix, atomic_valence_electrons = _AC2BO\(\s*con_mat,", t) \
-            and "return (BO_matrix, charges, unpaired_electrons)" in t:
+    # role names: the integer copy of the input, the matrix returned by _AC2BO
+    copy_name = bo_name = None
+    for n_ in ast.walk(top.node):
+        if isinstance(n_, ast.Assign) and len(n_.targets) == 1:
+            tg, v_ = n_.targets[0], n_.value
+            if isinstance(tg, ast.Name) and isinstance(v_, ast.Call) and \
+                    call_name(v_) in ("np.array", "numpy.array") and v_.args \
+                    and norm(v_.args[0]) == "connectivity_matrix" and any(
+                    k.arg == "dtype" and norm(k.value) == "int"
+                    for k in v_.keywords):
+                copy_name = tg.id
+            if isinstance(tg, ast.Tuple) and tg.elts and isinstance(
+                    tg.elts[0], ast.Name) and isinstance(
+                    v_, ast.Call) and call_name(v_) == "_AC2BO" and v_.args:
+                if copy_name and norm(v_.args[0]) == copy_name:
+                    bo_name = tg.elts[0].id
+    rets_ = [r_ for r_ in ast.walk(top.node) if isinstance(r_, ast.Return)
+             and isinstance(r_.value, ast.Tuple) and r_.value.elts]
+    if copy_name and bo_name and rets_ and all(
+            norm(r_.value.elts[0]) == bo_name for r_ in rets_):
         res.ok("R-BO-WRITES", inst, top.loc())
     else:
         res.unrecognised("R-BO-WRITES", inst, top.loc(),
                          "integer copy / _AC2BO call / return not recognised")
     # pairs --------------------------------------------------------------------
     gb = prog.fn(f"{MOD}:_get_bonds")
-    apps = [n for n in ast.walk(gb.node) if isinstance(n, ast.Call)
-            and norm(n.func) == "bonds.append"]
-    if not apps:
-        raise AnalysisError("_get_bonds: append vanished")
-    for a in apps:
-        guards = [norm(x.test) for x in ancestors(a) if isinstance(x, ast.If)]
-        inst = f"_get_bonds: {norm(a)} under {guards}"
-        if any(g in ("AC[i, j] == 1", "AC[j, i] == 1", "AC[i][j] == 1")
+    ret_names = {norm(r_.value) for r_ in ast.walk(gb.node)
+                 if isinstance(r_, ast.Return) and isinstance(
+                     r_.value, ast.Name)}
+    # pair productions: `result.append(<pair>)` under if-guards, or a list
+    # comprehension (returned directly or through the returned local)
+    productions = []        # (node, pair element expression, guard texts)
+    for n in ast.walk(gb.node):
+        if isinstance(n, ast.Call) and isinstance(n.func, ast.Attribute) and \
+                n.func.attr == "append" and norm(n.func.value) in ret_names \
+                and n.args:
+            guards = [norm(x.test) for x in ancestors(n)
+                      if isinstance(x, ast.If)]
+            productions.append((n, n.args[0], guards))
+    comps = [r_.value for r_ in ast.walk(gb.node)
+             if isinstance(r_, ast.Return) and isinstance(
+                 r_.value, ast.ListComp)]
+    comps += [n.value for n in ast.walk(gb.node) if isinstance(n, ast.Assign)
+              and norm(n.targets[0]) in ret_names
+              and isinstance(n.value, ast.ListComp)]
+    for c_ in comps:
+        guards = []
+        for g_ in c_.generators:
+            for cond in g_.ifs:
+                parts = cond.values if isinstance(
+                    cond, ast.BoolOp) and isinstance(cond.op, ast.And) \
+                    else [cond]
+                guards += [norm(x) for x in parts]
+        productions.append((c_, c_.elt, guards))
+    if not productions:
+        raise AnalysisError("_get_bonds: pair production (append / list "
+                            "comprehension) vanished")
+    single = {}
+    for n in ast.walk(gb.node):
+        if isinstance(n, ast.Assign) and len(n.targets) == 1 and isinstance(
+                n.targets[0], ast.Name):
+            single.setdefault(n.targets[0].id, []).append(n.value)
+    for a, elt, guards in productions:
+        inst = f"_get_bonds: {norm(a, 80)} under {guards}"
+        ac = gb.params()[1] if len(gb.params()) > 1 else "AC"
+        if isinstance(elt, ast.Name) and len(single.get(elt.id, [])) == 1:
+            elt = single[elt.id][0]
+        names = []
+        for x in ast.walk(elt):
+            if isinstance(x, ast.Name) and x.id not in (
+                    "tuple", "sorted", "list", "frozenset", "min", "max") \
+                    and x.id not in names:
+                names.append(x.id)
+        if len(names) != 2:
+            res.unrecognised("R-BO-PAIRS", inst, gb.loc(a),
+                             f"pair element `{norm(elt, 60)}`")
+            continue
+        i_, j_ = names
+        if any(g in (f"{ac}[{i_}, {j_}] == 1", f"{ac}[{j_}, {i_}] == 1",
+                     f"{ac}[{i_}][{j_}] == 1", f"{ac}[{j_}][{i_}] == 1")
                for g in guards):
             res.ok("R-BO-PAIRS", inst, gb.loc(a))
         else:
-            res.bad("R-BO-PAIRS", f"_get_bonds: {norm(a)}", gb.loc(a),
-                    f"_get_bonds appends a pair without the bonded test "
-                    f"AC[i, j] == 1 (guards: {guards}): bond orders may be "
+            res.bad("R-BO-PAIRS", f"_get_bonds: {norm(a, 80)}", gb.loc(a),
+                    f"_get_bonds produces a pair without the bonded test "
+                    f"{ac}[i, j] == 1 (guards: {guards}): bond orders may be "
                     "raised between atoms that are not bonded")
     ua = prog.fn(f"{MOD}:_get_UA_pairs")
     ut = utext(ua.node)
@@ -319,8 +384,25 @@ def check_dict_dir(prog: Program, res: Result) -> None:
     mk = prog.fn("graph2rdmol:mol_graph_to_rdmol")
     t = utext(mk.node)
     inst = "mol_graph_to_rdmol adds RDKit atoms in graph.atoms order (ArrIdx == RdIdx)"
-    if "for atom in graph.atoms:" in t and "atom_index = mol.AddAtom(rd_atom)" in t \
-            and "idx_map_num_dict[atom_index] = atom" in t:
+    g_ = mk.params()[0]
+    created = False
+    for l_ in ast.walk(mk.node):
+        if isinstance(l_, ast.For) and norm(l_.iter) == f"{g_}.atoms" and \
+                isinstance(l_.target, ast.Name):
+            a_ = l_.target.id
+            adds = [n_ for n_ in ast.walk(l_) if isinstance(n_, ast.Assign)
+                    and isinstance(n_.value, ast.Call) and isinstance(
+                        n_.value.func, ast.Attribute)
+                    and n_.value.func.attr == "AddAtom"
+                    and isinstance(n_.targets[0], ast.Name)]
+            for ad in adds:
+                idx_ = ad.targets[0].id
+                if any(isinstance(n_, ast.Assign) and isinstance(
+                        n_.targets[0], ast.Subscript)
+                       and norm(n_.targets[0].slice) == idx_
+                       and norm(n_.value) == a_ for n_ in ast.walk(l_)):
+                    created = True
+    if created:
         res.ok("R-DICT-DIR", inst, mk.loc())
     else:
         res.unrecognised("R-DICT-DIR", inst, mk.loc(),
